@@ -266,7 +266,7 @@ def run_check(pid, tier, seed, replay=None):
                     report(cspec["container"], found[0], found[1])
                     break
             if not found:
-                OUT.mkdir(exist_ok=True)
+                OUT.mkdir(parents=True, exist_ok=True)
                 nrep[0] += 1
                 path = OUT / f"{pid}-{nrep[0]:04d}.broken"
                 with open(path, "w") as f:
@@ -306,7 +306,7 @@ def run_check(pid, tier, seed, replay=None):
         assumptions=P.get("assumptions", []) + props.COMMON_ASSUMPTIONS,
         wall_s=round(wall, 2), violations=len(printed),
     )
-    EVID.mkdir(exist_ok=True)
+    EVID.mkdir(parents=True, exist_ok=True)
     with open(EVID / f"{pid}.json", "w") as f:
         json.dump(ev, f, indent=1, default=str)
     return 1 if printed else 0
